@@ -24,7 +24,7 @@ Theorem C03_modify_splice : forall (P: Type) ld fs co lm fuel s, lm <> [] -> (le
 Proof. exact modify_splice. Qed.
 Print Assumptions C03_modify_splice.
 ''')
-mk("C05","statement ASTs mirror C's statement nesting and source order","StmtExamples"," AstSpec StmtProofs",
+mk("C05","statement ASTs mirror C's statement nesting and source order","StmtExamples"," AstSpec StmtProofs ElseProofs",
 '''(* fix_switch_cases: for a switch body of ANY length whose label chains have ANY depth, the regrouped
    body is exactly: statements under the nearest preceding label, consecutive labels as siblings,
    statements before the first label in front (regroup_spec) - nothing lost, duplicated or reordered *)
@@ -34,6 +34,22 @@ Theorem C05_switch_regroup_correct : forall (P: Type) cs items cur fuel st,
   = Ok (regroup_spec P cs items cur, st).
 Proof. exact switch_regroup_correct. Qed.
 Print Assumptions C05_switch_regroup_correct.
+
+(* an else belongs to the nearest if, on the whole-parser model, for every token stream, state and fuel:
+   the if-production tries `else` immediately after its then-statement; when it does not take one, the
+   token following the finished If node is not `else` (so no else is ever left for an enclosing if) *)
+Theorem C05_else_binds_to_nearest_if : forall (P: Type) f s r s' t s0,
+  p_selection_statement P (S f) s = Ok (r, s') ->
+  advance P s = Ok (t, s0) -> kind_eqb (tk t) K_IF = true ->
+  exists cond th sa el sb co,
+    accept P K_ELSE sa = Ok (el, sb) /\\
+    match el with
+    | Some e => kind_eqb (tk e) K_ELSE = true /\\ exists es, r = mkN P C_If [cond; th; es] co
+    | None => r = mkN P C_If [cond; th; VNone] co /\\ s' = sb /\\
+              forall t1 s1, peek P s' = Ok (Some t1, s1) -> kind_eqb (tk t1) K_ELSE = false
+    end.
+Proof. exact else_binds_to_nearest_if. Qed.
+Print Assumptions C05_else_binds_to_nearest_if.
 ''')
 mk("C06","parse() either returns a FileAST or raises ParseError - nothing else","CrashExamples"," LexerProofs",
 '''(* termination of the lexing half: tokenising any text finishes within |text|+1 iterations *)
